@@ -18,7 +18,7 @@ import (
 // WaitLong is the generous wall-clock watchdog used for every wait that is
 // expected to complete in microseconds; its expiry is never a violation by
 // itself (inconclusive, or the start of a dead-state proof).
-var WaitLong = 60 * time.Second
+var WaitLong = 30 * time.Second
 
 // WaitShort is the interval between the two censuses of a dead-state proof.
 var WaitShort = rig.DeadInterval
